@@ -251,3 +251,73 @@ where
 pub fn ids_sample(ids: &[u64]) -> Value {
     json!(ids.iter().take(10).collect::<Vec<_>>())
 }
+
+pub fn strict_opts() -> R::ValidateOpts {
+    R::ValidateOpts {
+        allow_empty_metadata: false,
+        strict_counters: true,
+        pointer_is_first_id: true,
+        strict_consumed: true,
+    }
+}
+
+/// The independent reader's verdict on library-written bytes: well-formed per the C02 clauses AND
+/// addressing exactly the logical content. `lookup_probes`: ids looked up with the spec procedure.
+pub fn verify_archive_bytes(bytes: &[u8], l: &Logical, lookup_probes: &[u64]) -> Result<R::Validated, String> {
+    let v = R::validate(bytes, &strict_opts())?;
+    if v.abs.len() != l.tiles.len() {
+        return Err(format!("directories address {} tiles, {} were added", v.abs.len(), l.tiles.len()));
+    }
+    for ((id, (off, len)), (lid, c)) in v.abs.iter().zip(l.tiles.iter()) {
+        if id != lid {
+            return Err(format!("directories address tile {id} where tile {lid} was added"));
+        }
+        let a = *off as usize;
+        let b = a + *len as usize;
+        if b > bytes.len() || bytes[a..b] != c[..] {
+            return Err(format!("tile {id}: addressed bytes [{a},{b}) differ from the content added"));
+        }
+    }
+    if v.metadata != l.meta {
+        return Err(String::from("metadata section does not hold the metadata that was set"));
+    }
+    let h = &v.header;
+    if h.tile_type != l.tile_type || h.tile_compression != l.tile_compression || h.internal_compression != l.internal_compression {
+        return Err(format!(
+            "header enum fields ({},{},{}) differ from settings ({},{},{})",
+            h.tile_type, h.tile_compression, h.internal_compression, l.tile_type, l.tile_compression, l.internal_compression
+        ));
+    }
+    if [h.min_zoom, h.max_zoom, h.center_zoom] != [l.min_zoom, l.max_zoom, l.center_zoom] {
+        return Err(String::from("header zoom fields differ from settings"));
+    }
+    let st = stored_coords(h);
+    for i in 0..6 {
+        if !gen::coord_nearest(l.coords[i], st[i]) {
+            return Err(format!("coordinate slot {i}: {:?} stored as {}", l.coords[i], st[i]));
+        }
+    }
+    for id in lookup_probes {
+        let got = R::lookup(bytes, h, *id)?;
+        let want = l.tiles.get(id).map(|c| c.as_ref().clone());
+        if got != want {
+            return Err(format!(
+                "specification lookup of tile {id} returns {:?} bytes, expected {:?}",
+                got.map(|g| g.len()),
+                want.map(|w| w.len())
+            ));
+        }
+    }
+    Ok(v)
+}
+
+/// A spread of ids for the spec lookup: present ones (strided) + absent probes.
+pub fn lookup_probes(l: &Logical, rng: &mut crate::rng::Rng, max_present: usize) -> Vec<u64> {
+    let step = (l.tiles.len() / max_present.max(1)).max(1);
+    let mut v: Vec<u64> = l.tiles.keys().copied().step_by(step).collect();
+    if let Some(last) = l.tiles.keys().next_back() {
+        v.push(*last);
+    }
+    v.extend(absent_probes(l, rng, 40));
+    v
+}
